@@ -42,6 +42,9 @@ pub mod shims_nondet {
     pub fn nondet() -> bool { unimplemented!() }
 }
 
+// (vstd already declares core::time::Duration as an external type)
+pub uninterp spec fn nanos(d: std::time::Duration) -> int;
+
 // module tree of the rodbus crate (contents are fragments; every item text comes from /repo)
 pub mod error {
 use vstd::prelude::*;
@@ -49,7 +52,7 @@ use vstd::std_specs::convert::FromSpecImpl;
 
 #[derive(Clone, Copy, PartialEq, Eq)]
 pub struct Shutdown;
-#[derive(Clone, Copy, PartialEq, Eq)]
+#[derive(Clone, Copy)]
 pub enum RequestError {
     
     Io(::std::io::ErrorKind),
@@ -70,6 +73,12 @@ pub enum RequestError {
     
     Shutdown,
 }
+impl vstd::std_specs::cmp::PartialEqSpecImpl for RequestError {
+    open spec fn obeys_eq_spec() -> bool { true }
+    open spec fn eq_spec(&self, other: &Self) -> bool { *self == *other }
+}
+impl PartialEq for RequestError { #[verifier::external_body] fn eq(&self, other: &Self) -> bool { unimplemented!() } }
+
 #[derive(Copy, Clone, PartialEq, Eq)]
 pub enum InvalidRange {
     
